@@ -222,18 +222,18 @@ KNOWN_DEFECT_refused_merge_already_adopted_preceding_nuclides = False  # recorde
 # factors of the refused library.  With the flag True, in exactly that configuration (a structure conflict, and the
 # refused library brings library-level properties the target does not have yet) those properties of the target are
 # not compared; everything else of the target and the whole refused library still are.
-KNOWN_DEFECT_refused_merge_already_adopted_properties = True
+KNOWN_DEFECT_refused_merge_already_adopted_properties = False
 
 # _XSLibrary._mergeNeutronEnergies takes "the first" neutron velocity with `if not hasattr(self, "_neutronVelocity")`,
 # but merging a library WITHOUT neutron velocity (GAMISO-, PMATRX-like) first stores None there, so the velocity of
 # every ISOTXS merged later is dropped: the result depends on the merge order.  With the flag True the velocity of the
 # result is not examined when a library without velocity was merged before the first ISOTXS-like one.
-KNOWN_DEFECT_neutron_velocity_lost_when_other_kinds_come_first = True
+KNOWN_DEFECT_neutron_velocity_lost_when_other_kinds_come_first = False  # repaired in /repo (fix: 3cfc63a)
 
-# NuclideXSMetadata._mergeLibrarySpecificData: libraryLabel = self's or other's: the label of the result is that of the
-# file merged first, i.e. depends on the merge order.  With the flag True the label is only required to be one of the
-# sources' labels.
-KNOWN_DEFECT_library_label_depends_on_merge_order = True
+# The library label (file identification text of each file, different from file to file) is outside the order-independence
+# clause: NuclideXSMetadata exempts it from conflict detection by design (_getSkippedKeys) and documents the result as
+# "self's or other's" (_mergeLibrarySpecificData), like the list of file names, which is kept in merge order.  A merged
+# library can hold one label only; it is required to be the label of one of the merged files (nothing invented).
 
 
 def differs(a, b):
@@ -342,14 +342,8 @@ def library_merge_is_lossless_and_order_independent(ctx, scenario):
         ctx.check("%s file metadata: the common group count" % kind, m["numGroups"] == numGroups[srcs.index(mine[0])])
         ctx.check("%s file names: those of the merged files, in merge order" % kind,
                   list(m.fileNames) == [srcs[i].tag for i in order if srcs[i].kind == kind])
-        firstMerged = [srcs[i] for i in order if srcs[i].kind == kind][0]
-        if KNOWN_DEFECT_library_label_depends_on_merge_order and firstMerged is not mine[0]:
-            ctx.check("%s library label: that of one of the merged files" % kind,
-                      m["libraryLabel"] in ["label of " + s.tag for s in mine])
-        else:
-            ctx.check("%s library label: the same whatever the merge order (that of the first of the files in the "
-                      "order they are listed, which is what merging them in that order gives)" % kind,
-                      m["libraryLabel"] == "label of " + mine[0].tag)
+        ctx.check("%s library label: that of one of the merged files" % kind,
+                  m["libraryLabel"] in ["label of " + s.tag for s in mine])
     st = state(target)
     # every merged library agrees on the structures (else the merge was refused): the result holds that common one
     for what, attr in (("neutron", "neutronBounds"), ("gamma", "gammaBounds")):
@@ -372,7 +366,7 @@ def library_merge_is_lossless_and_order_independent(ctx, scenario):
 # data were merged into it keeps answering with the table of the nuclides it held then: the nuclides that arrived later
 # are missing, although the library holds their scatter matrices.  With the flag True the table is examined only when it
 # was not asked for between the merges.
-KNOWN_DEFECT_scatter_weights_cache_survives_merge = True
+KNOWN_DEFECT_scatter_weights_cache_survives_merge = False  # repaired in /repo (fix: 0611b76)
 
 
 @harness("C10", bounds="two ISOTXS-like libraries (2 groups, two cross-section IDs, 2 nuclide labels each) merged into an "
@@ -415,7 +409,7 @@ def scatter_weights_cover_every_merged_nuclide(ctx):
 # the refused one (gamma data into gamma data: with its neutron metadata and cross sections).  With the flag True the
 # receiving nuclide is not compared in exactly that configuration (refused, and the other nuclide holds a kind of
 # data the receiving one lacks); the other nuclide still is.
-KNOWN_DEFECT_refused_nuclide_merge_already_adopted_other_kinds = True
+KNOWN_DEFECT_refused_nuclide_merge_already_adopted_other_kinds = False
 
 SUBSETS = [c for r in range(4) for c in itertools.combinations(KINDS, r)]
 
